@@ -224,6 +224,9 @@ def run(tier):
     ck.rule("E7.guarded-def-use", "Burgers assemblers / jobs / voxel kernels: a local (or task member) that is recomputed per cubature point under a guard G_w (format()/assignment inside the point loop resp. in prepare_point()) is read afterwards only under guards G_r with G_r => G_w (propositional over the switch flags, const bool locals resolved through their initialisers); otherwise, for a parameter set with G_r and not G_w, the term is assembled from a stale/zero value", 23)
     ck.rule("E7.output-cleared", "assemblers that scatter into caller matrices: an output that the function clears with format() at all is cleared on EVERY path from entry to the scatter loop, all outputs of one function are treated alike, and functions documented to assemble (not add) clear their outputs; otherwise a re-assembly adds onto the old content", 11)
 
+    ck.rule("E2.element-index-kind", "DomainAssembler: a function that reorders the element list (reads the old _element_indices and stores into it: _build_layers, _build_colors) stores only values taken from the old list (possibly through a copy / an in-place translated work array), never a position inside the list: positions equal mesh element numbers only when the assembler was compiled for all elements in mesh order, otherwise the wrong cells are assembled", 4)
+    ck.rule("E7.caller-kernel-gating", "voxel host loops: a cell-local array that the host fills (gathers) only under a guard G_w and hands to the shared kernel is read by the kernel only under guards that imply G_w once the kernel's flag parameters are replaced by the call's arguments; otherwise, for a parameter set with the read guard true and G_w false, the kernel computes with the zero-initialised array", 4)
+
     facts = featlib.extract("tu/c16_assembly.cpp", files=FILES)
     ck.tu(facts)
     for e in facts.errors_outside_repo():
@@ -250,6 +253,9 @@ def run(tier):
     except featlib.AnalysisBroken as e:
         ck.incomplete("E7.guarded-def-use", str(e))
     check_guarded_defuse(ck, named, tier)
+    if len(named) == 3:
+        check_caller_kernel_gating(ck, named[2][1], "voxel", tier)
+    check_element_index_kind(ck, tier)
     check_outputs_cleared(ck, facts_b, tier)
     check_outputs_cleared(ck, facts, tier)
     if tier == "thorough":
@@ -1613,3 +1619,351 @@ def check_outputs_cleared(ck, facts, tier):
             if st == "none" and doc is not None:
                 problems.append("%s is never cleared although the function is documented to assemble (not to add onto) its outputs" % name)
             ck.ob("E7.output-cleared", key, not problems, "; ".join(sorted(set(problems))) if problems else ("cleared by format() on every path to the scatter loop" if st == "all" else "accumulating assembler: no output of this function is cleared (alpha-scaled add)"), f.file, f.line)
+
+
+# -------------------------------------------------------------------------------------------------
+# element index kind of the domain assembler's element list (local position vs mesh element)
+# -------------------------------------------------------------------------------------------------
+
+ELEM_FIELD = "_element_indices"
+ELEM_QUERY = ("size", "empty", "clear", "reserve", "resize", "capacity", "begin", "end", "cbegin", "cend", "shrink_to_fit")
+
+
+def _is_elem_member(n):
+    return n is not None and n.get("k") == "Member" and n.get("n") == ELEM_FIELD and (n.get("b") or {}).get("k") == "This"
+
+
+def check_element_index_kind(ck, tier):
+    """E2.element-index-kind"""
+    try:
+        facts = featlib.extract("tu/c17_domain_assembler.cpp", files=F("kernel/assembly/domain_assembler.hpp"))
+    except (featlib.AnalysisBroken, OSError) as e:
+        ck.incomplete("E2.element-index-kind", "driver tu/c17_domain_assembler.cpp: %s" % e)
+        return
+    ck.tu(facts)
+    seen = set()
+    for f in sorted(facts.functions, key=lambda f: f.full):
+        if f.tk == "pattern" or not f.cls.startswith("FEAT::Assembly::DomainAssembler<") or "::Worker" in f.cls or (f.name, len(f.params)) in seen:
+            continue
+        nodes = list(f.nodes())
+        if not any(_is_elem_member(n) for n in nodes):
+            continue
+        seen.add((f.name, len(f.params)))
+        # --- taint: containers / scalars that hold values of the OLD element list ------------------------------------
+        cont, scal = set(), set()      # decl ids
+
+        def is_container(n):
+            """expression denotes the old element list or a (copy / translated) container of its values"""
+            n = strip(n)
+            if _is_elem_member(n):
+                return True
+            return n is not None and n.get("k") == "Ref" and n.get("d") in cont
+
+        def strip(n):
+            while n is not None:
+                if n.get("k") == "Cast":
+                    n = n.get("e")
+                elif n.get("k") in ("Call",) and (n.get("callee") or "") in ("std::move", "std::forward") and n.get("a"):
+                    n = n["a"][0]
+                elif n.get("k") in ("Construct", "TempObj") and len(n.get("a", [])) == 1 and "vector" in (n.get("callee") or ""):
+                    n = n["a"][0]
+                else:
+                    break
+            return n
+
+        def is_elem_value(n):
+            """expression is a value taken from the old element list (mesh element number)"""
+            n = strip(n)
+            if n is None:
+                return False
+            if n.get("k") == "MCall" and n.get("n") in ("at", "front", "back") and is_container(n.get("obj")):
+                return True
+            if n.get("k") == "OpCall" and n.get("op") == "[]" and n.get("a") and is_container(n["a"][0]):
+                return True
+            if n.get("k") == "Index" and is_container(n.get("b")):
+                return True
+            if n.get("k") == "Ref" and n.get("d") in scal:
+                return True
+            if n.get("k") == "Un" and n.get("op") == "*":
+                return is_elem_value(n.get("e"))
+            return False
+
+        def lhs_root(n):
+            n = strip(n)
+            if n is None:
+                return None, False
+            if n.get("k") == "Ref" and n.get("dk") in ("local", "param"):
+                return n.get("d"), False
+            if n.get("k") == "MCall" and n.get("n") in ("at", "front", "back"):
+                r, _ = lhs_root(n.get("obj"))
+                return r, True
+            if n.get("k") == "OpCall" and n.get("op") == "[]" and n.get("a"):
+                r, _ = lhs_root(n["a"][0])
+                return r, True
+            if n.get("k") == "Index":
+                r, _ = lhs_root(n.get("b"))
+                return r, True
+            return None, False
+        changed = True
+        rounds = 0
+        while changed and rounds < 8:
+            changed = False
+            rounds += 1
+            for n in nodes:
+                k = n.get("k")
+                if k == "Var" and n.get("init") is not None:
+                    if is_container(n["init"]) and n["d"] not in cont:
+                        cont.add(n["d"]); changed = True
+                    elif is_elem_value(n["init"]) and n["d"] not in scal:
+                        scal.add(n["d"]); changed = True
+                src = dst = None
+                if k == "Assign" and n.get("op") == "=":
+                    dst, src = n.get("lhs"), n.get("rhs")
+                elif k == "OpCall" and n.get("op") == "=" and len(n.get("a", [])) == 2:
+                    dst, src = n["a"][0], n["a"][1]
+                elif k == "MCall" and n.get("n") in ("push_back", "emplace_back") and len(n.get("a", [])) == 1:
+                    dst, src = n.get("obj"), n["a"][0]
+                    r, _ = lhs_root(dst)
+                    if r is not None and is_elem_value(src) and r not in cont:
+                        cont.add(r); changed = True
+                    continue
+                if dst is None:
+                    continue
+                r, elementwise = lhs_root(dst)
+                if r is None:
+                    continue
+                if elementwise and is_elem_value(src) and r not in cont:
+                    cont.add(r); changed = True
+                elif not elementwise and is_container(src) and r not in cont:
+                    cont.add(r); changed = True
+                elif not elementwise and is_elem_value(src) and r not in scal:
+                    scal.add(r); changed = True
+        # --- does the function reorder (read the old content)? ------------------------------------------------------
+        reads_old = False
+        store_dst = set()
+        for n in nodes:
+            if n.get("k") == "Assign" and n.get("op") == "=":
+                d0 = strip(n.get("lhs"))
+                if d0 is not None:
+                    store_dst.add(id(d0))
+        for n in nodes:
+            if id(n) in store_dst:
+                continue
+            if n.get("k") == "MCall" and _is_elem_member(n.get("obj")) and n.get("n") in ("at", "front", "back"):
+                reads_old = True
+            if n.get("k") == "OpCall" and n.get("op") == "[]" and n.get("a") and _is_elem_member(n["a"][0]):
+                reads_old = True
+            if n.get("k") in ("Construct", "TempObj") and len(n.get("a", [])) == 1 and _is_elem_member(strip(n["a"][0])):
+                reads_old = True
+        # --- sinks ---------------------------------------------------------------------------------------------------
+        sinks = []
+        for n in nodes:
+            k = n.get("k")
+            if k == "Assign" and n.get("op") == "=":
+                d0 = strip(n.get("lhs"))
+                if d0 is not None and ((d0.get("k") == "MCall" and d0.get("n") == "at" and _is_elem_member(d0.get("obj"))) or
+                                       (d0.get("k") == "OpCall" and d0.get("op") == "[]" and d0.get("a") and _is_elem_member(d0["a"][0]))):
+                    sinks.append((n, n.get("rhs"), "element"))
+            elif k == "OpCall" and n.get("op") == "=" and len(n.get("a", [])) == 2 and _is_elem_member(strip(n["a"][0])):
+                sinks.append((n, n["a"][1], "whole"))
+            elif k == "MCall" and n.get("n") in ("push_back", "emplace_back") and _is_elem_member(n.get("obj")) and len(n.get("a", [])) == 1:
+                sinks.append((n, n["a"][0], "element"))
+        if not sinks:
+            continue
+        key = "DomainAssembler::%s" % f.name
+        # an initial fill states its belief: XASSERT(_element_indices.empty()) (the mesh element numbers are then enumerated directly)
+        asserts_empty = any(n.get("k") == "Call" and (n.get("callee") or "") == "FEAT::assertion" and
+                            any(x.get("k") == "MCall" and x.get("n") == "empty" and _is_elem_member(x.get("obj")) for x in walk(n)) for n in nodes)
+        if asserts_empty and not reads_old:
+            ck.ob("E2.element-index-kind", key, True, "initial fill of the element list (asserted empty on entry, %d stores)" % len(sinks), f.file, f.line, trivial=True)
+            continue
+        problems, unknown = [], []
+        for n, src, kind in sinks:
+            ok = is_container(src) if kind == "whole" else is_elem_value(src)
+            if ok:
+                continue
+            s0 = strip(src)
+            msg = "line %s stores %s into the element list: a %s that is not taken from the previous element list (local position instead of mesh element number)" % (
+                n.get("l"), featlib.render(src)[:80], "container" if kind == "whole" else "value")
+            # an unmodelled callee producing the value could translate: only plain reads of other arrays / counters are definite
+            if s0 is not None and s0.get("k") in ("Index", "Ref", "Int") or (s0 is not None and s0.get("k") in ("OpCall", "MCall") and s0.get("op", s0.get("n")) in ("[]", "at")):
+                problems.append(msg)
+            else:
+                unknown.append(msg)
+        _finish(ck, "E2.element-index-kind", key, problems, unknown, "%d stores into the reordered element list take their values from the previous list (position -> mesh element translation kept)" % len(sinks), f.file, f.line)
+
+
+# -------------------------------------------------------------------------------------------------
+# producer / consumer gating between the voxel host loops and their kernels
+# -------------------------------------------------------------------------------------------------
+
+class _RGuards(_Guards):
+    """guards with const / reference locals resolved through their initialisers and parameters substituted by
+    the caller's argument expressions (for the interprocedural comparison)"""
+
+    def __init__(self, fn, subst=None, outer=None):
+        super().__init__(fn)
+        self.all_inits = {}
+        for n in fn.nodes():
+            if n.get("k") == "Var" and n.get("init") is not None and (n.get("const") or n.get("ref") or "const" in fn.type(n.get("t"))):
+                self.all_inits[n["d"]] = n["init"]
+        self.subst = subst or {}     # param decl id -> (argument node, guards object of the caller)
+        self.outer = outer
+
+    def resolve(self, n, depth=0):
+        """expression with locals replaced by initialisers, parameters by caller arguments -> text"""
+        k = n.get("k")
+        if depth < 8 and k == "Ref":
+            if n.get("d") in self.subst:
+                a, og = self.subst[n["d"]]
+                return og.resolve(a, depth + 1)
+            if n.get("d") in self.all_inits:
+                return self.resolve(unwrap_init(self.all_inits[n["d"]]), depth + 1)
+            return n.get("n")
+        if k == "Member":
+            b = n.get("b")
+            return (self.resolve(b, depth) + "." if b is not None and b.get("k") != "This" else "") + n.get("n")
+        if k == "Cast":
+            return self.resolve(n.get("e"), depth)
+        if k in ("Int", "Float", "Bool"):
+            return str(n.get("text") or n.get("v"))
+        if k == "Bin":
+            return "(%s %s %s)" % (self.resolve(n["lhs"], depth), n["op"], self.resolve(n["rhs"], depth))
+        if k == "Un":
+            return "(%s%s)" % (n["op"], self.resolve(n["e"], depth))
+        if featlib.is_call(n):
+            nm = (n.get("callee") or "?").rsplit("::", 1)[-1]
+            args = [self.resolve(a, depth) for a in n.get("a", [])]
+            if n.get("k") == "MCall" and n.get("obj") is not None:
+                args.insert(0, self.resolve(n["obj"], depth))
+            return "%s(%s)" % (nm, ",".join(args))
+        if k == "InitList" and len(n.get("a", [])) == 1:
+            return self.resolve(n["a"][0], depth)
+        return featlib.render(n)
+
+    def formula(self, n, depth=0):
+        k = n.get("k")
+        if k == "Bool":
+            return ("const", bool(n["v"]))
+        if k == "Un" and n.get("op") == "!":
+            return ("not", self.formula(n["e"], depth))
+        if k == "Bin" and n.get("op") in ("&&", "||"):
+            return ("and" if n["op"] == "&&" else "or", self.formula(n["lhs"], depth), self.formula(n["rhs"], depth))
+        if k == "Ref" and depth < 8:
+            if n.get("d") in self.subst:
+                a, og = self.subst[n["d"]]
+                return og.formula(a, depth + 1)
+            if n.get("d") in self.all_inits:
+                return self.formula(unwrap_init(self.all_inits[n["d"]]), depth + 1)
+        if k == "Cast":
+            return self.formula(n.get("e"), depth)
+        txt = self.resolve(n)
+        # data names (dotted paths), not function names: two comparison atoms are related only if they share a datum
+        names = tuple(sorted({m.group(1) for m in re.finditer(r"([A-Za-z_]\w*(?:\.[A-Za-z_]\w*)*)(?!\w|\()", txt)}))
+        return ("atom", txt, names, k in ("Ref", "Member"))
+
+
+def unwrap_init(n):
+    while n is not None and n.get("k") == "InitList" and len(n.get("a", [])) == 1:
+        n = n["a"][0]
+    return n
+
+
+def _guard_walk(fn, G, on_node):
+    """calls on_node(node, [guard formulas]) for every node with the if / short-circuit guards enclosing it"""
+    def visit(n, stack):
+        if n is None or not isinstance(n, dict):
+            return
+        k = n.get("k")
+        if k == "If":
+            visit(n.get("init"), stack)
+            visit(n.get("c"), stack)
+            f = G.formula(n["c"])
+            visit(n.get("then"), stack + [f])
+            if n.get("else") is not None:
+                visit(n["else"], stack + [("not", f)])
+            return
+        if k == "Bin" and n.get("op") in ("&&", "||"):
+            f = G.formula(n["lhs"])
+            visit(n["lhs"], stack)
+            visit(n["rhs"], stack + [f if n["op"] == "&&" else ("not", f)])
+            return
+        on_node(n, stack)
+        for c in featlib.children(n):
+            visit(c, stack)
+    visit(fn.body, [])
+
+
+def check_caller_kernel_gating(ck, facts, label, tier):
+    """E7.caller-kernel-gating: a local of the host cell loop that is filled (gathered) under guard G_w and handed to a kernel is
+    read by the kernel only under guards that imply G_w after substituting the call's arguments for the kernel's parameters"""
+    by_decl = {f.d.get("decl"): f for f in facts.functions if f.tk != "pattern" and f.d.get("decl") is not None}
+    seen = set()
+    for f in sorted(facts.functions, key=lambda f: f.full):
+        if f.tk == "pattern" or not f.name.endswith("_host") or "/voxel_assembly/" not in f.file:
+            continue
+        if ", double, " not in f.full and "<double" not in f.full and "double," not in f.full:
+            pass
+        sig = (f.name, len(f.params))
+        if sig in seen:
+            continue
+        G = _RGuards(f)
+        calls = []      # (call node, guards)
+        prods = {}      # local decl id -> [(guards, line)]
+        inits = {}
+
+        def on_node(n, stack):
+            if n.get("k") == "Var":
+                inits[n["d"]] = n
+            if featlib.is_call(n) and n.get("k") in ("Call", "MCall"):
+                t = by_decl.get(n.get("cdecl"))
+                if t is not None and t.name.endswith("_assembly_kernel"):
+                    calls.append((n, list(stack), t))
+                    return
+                # a call that receives a local by non-const reference (first mutable argument) produces it
+                for a, pt in zip(n.get("a", []), n.get("pt", [])):
+                    ty = f.type(pt)
+                    if a.get("k") == "Ref" and a.get("dk") == "local" and ty.rstrip().endswith("&") and not ty.lstrip().startswith("const "):
+                        prods.setdefault(a["d"], []).append((list(stack), n.get("l"), (n.get("callee") or "").rsplit("::", 1)[-1]))
+        _guard_walk(f, G, on_node)
+        if not calls:
+            continue
+        seen.add(sig)
+        for cn, cstack, kern in calls:
+            # map kernel parameters to the caller's arguments
+            subst = {}
+            for p, a in zip(kern.params, cn.get("a", [])):
+                subst[p["d"]] = (a, G)
+            KG = _RGuards(kern, subst=subst)
+            for p, a in zip(kern.params, cn.get("a", [])):
+                if a.get("k") != "Ref" or a.get("dk") != "local" or a["d"] not in prods:
+                    continue
+                pw = prods[a["d"]]
+                if any(not st for st, _, _ in pw):
+                    continue          # produced unconditionally
+                # the kernel call itself must not be counted as a producer of its input
+                kt = kern.type(p["t"])
+                if not kt.lstrip().startswith("const "):
+                    continue
+                gws = [_Guards.conj(st) for st, _, _ in pw]
+                reads = {}
+
+                def on_k(n, stack, pd=p["d"]):
+                    if n.get("k") == "Ref" and n.get("d") == pd:
+                        g = _Guards.conj(stack)
+                        reads.setdefault(_Guards.show(g), (g, n.get("l")))
+                _guard_walk(kern, KG, on_k)
+                if not reads:
+                    continue
+                for gtxt, (gr, line) in sorted(reads.items()):
+                    full = _Guards.conj([gr] + cstack)
+                    cex, related = _Guards.implies(full, gws)
+                    short = re.sub(r"FEAT::[\w:]*::", "", gtxt)
+                    key = "%s/%s->%s/%s/read-under:%s" % (label, f.name, kern.name, p["n"], short[:110])
+                    if cex is None:
+                        ck.ob("E7.caller-kernel-gating", key, True, "read guard implies the gather guard %s" % " || ".join(_Guards.show(g) for g in gws)[:160], kern.file, line)
+                        continue
+                    msg = "%s reads %s (line %s) under %s, but %s fills it (%s, line %s) only under %s: for %s the kernel works on the initial value" % (
+                        kern.name, p["n"], line, short, f.name, pw[0][2], pw[0][1], " || ".join(re.sub(r"FEAT::[\w:]*::", "", _Guards.show(g)) for g in gws),
+                        ", ".join("%s=%s" % (re.sub(r"FEAT::[\w:]*::", "", k2), "true" if v else "false") for k2, v in sorted(cex.items())))
+                    _finish(ck, "E7.caller-kernel-gating", key, [] if related else [msg], [msg] if related else [], "", f.file, pw[0][1])
